@@ -874,6 +874,79 @@ def length_constraints(ck, dec, d, mask_idx, masked_idx, enc, param=None):
                   % ("" if not rejected else "; rejected lengths e.g. %s" % rejected[:4]))
 
 
+# exception classes a decoding call raises for malformed input, by the kind of its operand (frozen model):
+# binascii.a2b_hex / unhexlify / base64.b64decode on *bytes* raise binascii.Error; on a *str* they first require
+# ASCII and raise plain ValueError otherwise (binascii.Error is a subclass of ValueError, not the reverse)
+DECODE_RAISES = {
+    "binascii.a2b_hex": {"bytes": ("binascii.Error",), "str": ("binascii.Error", "ValueError")},
+    "binascii.unhexlify": {"bytes": ("binascii.Error",), "str": ("binascii.Error", "ValueError")},
+    "base64.b64decode": {"bytes": ("binascii.Error",), "str": ("binascii.Error", "ValueError")},
+    "bytes.fromhex": {"bytes": ("TypeError",), "str": ("ValueError",)},
+    "int": {"bytes": ("ValueError",), "str": ("ValueError",)},
+}
+
+
+def operand_kind(fi, rd, e, node, depth=0):
+    """'bytes' | 'str' | None for the (expanded) operand of a decoding call."""
+    e = rd.expand(e, node) if depth == 0 else e
+    if isinstance(e, ast.Constant):
+        return "bytes" if isinstance(e.value, bytes) else "str" if isinstance(e.value, str) else None
+    if isinstance(e, ast.Call):
+        nm = q.call_attr(e)
+        if nm in ("utf8", "bytes", "bytearray") or (isinstance(e.func, ast.Attribute) and nm == "encode"):
+            return "bytes"
+        if nm in ("to_unicode", "native_str", "str", "to_basestring") or (isinstance(e.func, ast.Attribute) and nm == "decode"):
+            return "str"
+        u = is_unpack(e)
+        if u is not None:
+            return operand_kind(fi, rd, u[0], node, depth + 1)
+        if isinstance(e.func, ast.Attribute) and nm in ("split", "rsplit", "strip", "lstrip", "rstrip", "lower", "upper", "partition", "rpartition", "replace"):
+            return operand_kind(fi, rd, e.func.value, node, depth + 1)
+        return None
+    if isinstance(e, ast.Subscript):
+        return operand_kind(fi, rd, e.value, node, depth + 1)
+    if isinstance(e, ast.Name):
+        for a in fi.node.args.posonlyargs + fi.node.args.args + fi.node.args.kwonlyargs:
+            if a.arg == e.id and a.annotation is not None:
+                ann = q.unparse(a.annotation)
+                if ann == "bytes":
+                    return "bytes"
+                if "str" in ann:
+                    return "str"  # str, or str | bytes: a str may arrive
+    return None
+
+
+def check_fallbacks(ck, dec):
+    """Where a handler supplies a fallback value for a failed decoding (``try: t = decode(x) except E: t = other``),
+    every exception the decoding raises for malformed input reaches that handler - none bypasses the fallback."""
+    rd = Reach(dec)
+    n = 0
+    for tr in [x for x in own_nodes(dec.node) if isinstance(x, ast.Try)]:
+        assigned = set()
+        for st in tr.body:
+            assigned |= {p_ for p_ in q.assigned_paths(st) if "." not in p_ and "[" not in p_}
+        fb = [h for h in tr.handlers if any(q.assigned_paths(st) & assigned for st in h.body)]
+        if not fb or not assigned:
+            continue
+        caught = [nm for h in fb for nm in q.handler_names(h)]
+        for st in tr.body:
+            for c in [x for x in q.walk_local(st) if isinstance(x, ast.Call)]:
+                key = q.dotted(c.func) if q.dotted(c.func) in DECODE_RAISES else (c.func.id if isinstance(c.func, ast.Name) and c.func.id in DECODE_RAISES else None)
+                if key is None or not c.args:
+                    continue
+                nodes = rd.cfg_nodes_of(c)
+                if not nodes:
+                    continue
+                kind = operand_kind(dec, rd, c.args[0], nodes[0])
+                if kind is None:
+                    raise AnalysisError("_decode_xsrf_token: cannot tell whether %s is given bytes or text" % q.unparse(c)[:60])
+                n += 1
+                missing = [exc for exc in DECODE_RAISES[key][kind] if not q.exc_is_caught(exc, caught)]
+                ck.ob("C24.fallback-complete", dec, c, not missing,
+                      "every exception %s raises for a malformed %s operand reaches the handler that supplies the fallback value (caught there: %s)%s" % (key, kind, ", ".join(caught), "" if not missing else "; bypassing it: " + ", ".join(missing)))
+    return n
+
+
 def check_cookie_set(ck, iss, cookie_name_expr):
     """On every path of xsrf_token where the raw token was freshly generated
     (version is None) the issued token is sent as the cookie."""
@@ -942,6 +1015,7 @@ def run(ck):
     ck.rule("C24.only-403", "check_xsrf_cookie raises only HTTPError(403); nothing else escapes except HTTPError from argument decoding")
     ck.rule("C24.decode-total", "_decode_xsrf_token (and _get_raw_xsrf_token) let no exception escape: every fallible operation on the token is inside a handler that catches it")
     ck.rule("C24.codec", "xsrf_token and _decode_xsrf_token agree on arity, separator, field positions, inverse codecs, mask width and the version constant")
+    ck.rule("C24.fallback-complete", "where a handler supplies the fallback token for a failed decoding, every exception the decoding raises for malformed input (bytes vs. text operand) is caught by that handler")
     ck.rule("C24.cookie-set", "a freshly generated token is sent as the _xsrf cookie (same name, same value)")
 
     normalise(ck)
@@ -963,6 +1037,7 @@ def run(ck):
                  trusted={".get_argument": ("HTTPError",), ".get_cookie": ()}, narrowing_asserts_ok=[raw.qualname])
     ar = check_decode_total(ck, dec, raw, es)
     check_raises(ck, chk, es)
+    ck.floor("C24.fallback-complete", check_fallbacks(ck, dec), 1, "decoding calls with a fallback handler in _decode_xsrf_token")
     if pos is not None:
         pos = (pos[0], pos[1] or ar)
         ck.need(pos[1] is not None, "token tuple arity unknown")
@@ -1059,6 +1134,8 @@ MUTANTS = [
     ("seeded C24-adv3: decoder rejects masked secrets that are not 16 bytes", _in("_decode_xsrf_token", replace_stmt(lambda st: isinstance(st, ast.Assign) and "_websocket_mask" in ast.unparse(st.value), lambda st: [parse_stmt("if len(mask) != 4 or len(binascii.a2b_hex(utf8(masked_token))) != 16:\n    raise ValueError('Malformed xsrf token')"), st])), "C24.codec"),
     ("decoder requires secrets of at least 16 bytes", _in("_decode_xsrf_token", replace_stmt(lambda st: isinstance(st, ast.Return) and ast.unparse(st.value) == "(version, token, timestamp)", lambda st: [parse_stmt("if len(token) < 16:\n    raise ValueError('short token')"), st], limit=1)), "C24.codec"),
     ("decoder insists on an 8-byte mask", _in("_decode_xsrf_token", replace_stmt(lambda st: isinstance(st, ast.Assign) and "_websocket_mask" in ast.unparse(st.value), lambda st: [parse_stmt("if len(mask) != 8:\n    raise ValueError('bad mask')"), st])), "C24.codec"),
+    ("seeded C24-adv5: legacy cookie hex-decoded as text (non-ASCII raises plain ValueError past the fallback)", _in("_decode_xsrf_token", replace_expr(lambda n: isinstance(n, ast.Call) and q.dotted(n.func) == "binascii.a2b_hex" and ast.unparse(n.args[0]) == "utf8(cookie)", lambda n: parse_expr("binascii.a2b_hex(cookie)"))), "C24.fallback-complete"),
+    ("fallback handler for non-hex legacy cookies narrowed to TypeError", _in("_decode_xsrf_token", lambda root: _narrow_fallback(root)), "C24.fallback-complete"),
     ("fresh token not sent as cookie for anonymous users", _in("xsrf_token", replace_expr(lambda n: isinstance(n, ast.Compare) and ast.unparse(n) == "version is None", lambda n: parse_expr("version is None and self.current_user"), limit=1)), "C24.cookie-set"),
     ("raw token: decoded cookie read from the version slot", _in("_get_raw_xsrf_token", replace_stmt(lambda st: isinstance(st, ast.Assign) and "_decode_xsrf_token" in ast.unparse(st), lambda st: [parse_stmt("token, version, timestamp = self._decode_xsrf_token(cookie)")])), "C24.token-position"),
 ]
@@ -1073,4 +1150,12 @@ def _release_before_check(root):
             if ci is not None and ri is not None and ci < ri:
                 body.insert(ci, body.pop(ri))
                 return True
+    return False
+
+
+def _narrow_fallback(root):
+    for x in ast.walk(root):
+        if isinstance(x, ast.ExceptHandler) and isinstance(x.type, ast.Tuple) and "binascii.Error" in ast.unparse(x.type):
+            x.type = ast.Name(id="TypeError", ctx=ast.Load())
+            return True
     return False
